@@ -1961,6 +1961,13 @@ func opcodeCheckSig(op *ParsedOpcode, t *thread) error {
 	// least 1 byte is needed for the hash type below.  The full length is
 	// checked depending on the script flags and upon parsing the signature.
 	if len(fullSigBytes) < 1 {
+		// An empty signature is the compact way to fail, but the public key
+		// it is checked against still has to conform to the strict encoding
+		// requirements (both encodings are checked before the signature is
+		// looked at).
+		if err = t.checkPubKeyEncoding(pkBytes); err != nil {
+			return err
+		}
 		t.dstack.PushBool(false)
 		return nil
 	}
@@ -2209,7 +2216,11 @@ func opcodeCheckMultiSig(op *ParsedOpcode, t *thread) error {
 
 		rawSig := sigInfo.signature
 		if len(rawSig) == 0 {
-			// Skip to the next pubkey if signature is empty.
+			// Skip to the next pubkey if signature is empty - the encoding
+			// of the pubkey it was tried against is checked all the same.
+			if err := t.checkPubKeyEncoding(pubKey); err != nil {
+				return err
+			}
 			continue
 		}
 
@@ -2226,7 +2237,15 @@ func opcodeCheckMultiSig(op *ParsedOpcode, t *thread) error {
 			if err := t.checkSignatureEncoding(signature); err != nil {
 				return err
 			}
+		}
 
+		// The pubkey encoding is checked for every signature / pubkey pair
+		// that is evaluated, whatever becomes of the signature afterwards.
+		if err := t.checkPubKeyEncoding(pubKey); err != nil {
+			return err
+		}
+
+		if !sigInfo.parsed {
 			// Parse the signature.
 			var err error
 			if t.hasAny(scriptflag.VerifyStrictEncoding, scriptflag.VerifyDERSignatures) {
@@ -2249,10 +2268,6 @@ func opcodeCheckMultiSig(op *ParsedOpcode, t *thread) error {
 
 			// Use the already parsed signature.
 			parsedSig = sigInfo.parsedSignature
-		}
-
-		if err := t.checkPubKeyEncoding(pubKey); err != nil {
-			return err
 		}
 
 		// Parse the pubkey.
